@@ -392,6 +392,9 @@ func (v *Vue) callFunc(ctx *VueContext, fn any, args ...any) (any, error) {
 		// Try to convert the argument to the expected type
 		if argVal.Type().AssignableTo(argType) {
 			in[i] = argVal
+		} else if converted, ok := numberToString(argVal, argType); ok {
+			// Go's own int->string conversion yields the rune with that code point, not the digits
+			in[i] = converted
 		} else if argVal.Type().ConvertibleTo(argType) {
 			in[i] = argVal.Convert(argType)
 		} else {
@@ -427,6 +430,20 @@ func (v *Vue) callFunc(ctx *VueContext, fn any, args ...any) (any, error) {
 	default:
 		return nil, fmt.Errorf("function returns too many values")
 	}
+}
+
+// numberToString converts integers to their decimal string form when a string is expected.
+func numberToString(val reflect.Value, targetType reflect.Type) (reflect.Value, bool) {
+	if targetType.Kind() != reflect.String {
+		return reflect.Value{}, false
+	}
+	switch {
+	case val.Kind() >= reflect.Int && val.Kind() <= reflect.Int64:
+		return reflect.ValueOf(strconv.FormatInt(val.Int(), 10)).Convert(targetType), true
+	case val.Kind() >= reflect.Uint && val.Kind() <= reflect.Uintptr:
+		return reflect.ValueOf(strconv.FormatUint(val.Uint(), 10)).Convert(targetType), true
+	}
+	return reflect.Value{}, false
 }
 
 // convertValue attempts common type conversions
